@@ -18,14 +18,21 @@ RULE = ("p/k/m <flags> <hex block>: HttpHeader::parse directly (p), parse+packIn
 TRUSTED = C26.TRUSTED + ["headersEnd / cleanMimePrefix / unfoldMime are transcribed by hand (SquidModel/Header/Mime.lean); size limits of grabMimeBlock are not modelled"]
 ASSUMPTIONS = C26.ASSUMPTIONS
 MANIFEST = {
-    "text": "partial: the model of HttpHeader::parse / HttpHeaderEntry::parse / packInto is proved to store exactly the fields of every block of the "
-            "field grammar (any OWS, CRLF or LF, any registered or unknown token name), to re-parse its own packing to the same fields when no stored "
-            "value spans lines, and to reject NUL, whitespace before the colon in requests, folded or bare-CR framing fields and CR-only request lines; "
-            "the obs-fold join of the HTTP/1 path is proved for the unfold model. The real code runs under ASan/UBSan against the model and an "
-            "independent reference header parser; known finding: on the HTTP/1 parser path obs-folds are unfolded before HttpHeader::parse, so folded "
-            "Content-Length/Transfer-Encoding are accepted there",
-    "note": "trusted: Lean kernel, hand transcription into the model, dump programs, harness and python reference parser",
-    "technique": "Lean 4 proof (induction over lines and fields; registry facts by kernel decide) + translators + ASan differential run + reference parser oracle",
+    "text": "partial: for the model of HttpHeader::parse / HttpHeaderEntry::parse / packInto it is proved, for all inputs, that (1) every block "
+            "made of well-formed field lines (any token name, registered names in any case, any tolerated whitespace, CRLF or LF, with or "
+            "without the final empty line) is stored as exactly the name/value pairs of its lines in order (accepted_fields_exact, "
+            "accepted_block_stored_exactly); (2) after a successful parse whose stored values do not span lines, parsing the packInto output "
+            "stores the same entries again (pack_parse_roundtrip_partial; hypothesis = no CR/LF in stored values); (3) NUL, whitespace before "
+            "the colon in requests, obs-fold and bare CR in Content-Length/Transfer-Encoding, bare CR with the strict parser and CR-only "
+            "request lines are rejected by HttpHeader::parse after any well-formed prefix and before anything; (4) unfoldMime joins an "
+            "obs-fold into one SP. Two clauses are false on the HTTP/1 parser path and are proved as counterexamples (known findings "
+            "C25-fold-framing-unfolded, C25-cr-line-unfolded). The real code runs under ASan/UBSan against the model and an independent "
+            "reference header parser, through HttpHeader::parse, parse+packInto+parse and grabMimeBlock",
+    "note": "trusted: Lean kernel, hand transcription of the C++ into the model (incl. headersEnd/cleanMimePrefix/unfoldMime), registry/charset dump "
+            "programs, harness and python reference parser; not proved: the converse of (1) for arbitrary accepted blocks and the round trip "
+            "for stored values that contain an obs-fold (both covered by the differential run only)",
+    "technique": "Lean 4 proof (induction over lines and fields; registry and octet-class facts by kernel decide over the regenerated tables) + "
+                 "translators + ASan differential run + reference parser oracle",
 }
 
 build_exe = C26.build_exe
